@@ -54,6 +54,28 @@ def check_batch(run, b, nrand):
             meta.append(("SE", name, v, canon, vi))
             lines.append("SD %s %s" % (name, canon.hex()))
             meta.append(("SD", name, v, canon, vi))
+    # the rpc wrappers the generator synthesizes for service methods are structs of the generated code too:
+    # <X>Input / <Y>Output = { service_id @0: 8-bit ServiceId, method_id @1: 8-bit <Svc>MethodId, payload @2: X }
+    wrappers = []
+    for d in b.decls:
+        if d["kind"] != "service":
+            continue
+        for m in d["methods"]:
+            for role, pname in (("Input", m["input"]), ("Output", m["output"])):
+                if pname in sch.structs and 0 <= d["id"] <= 255 and 0 <= m["id"] <= 255:
+                    wrappers.append((pname + role, pname, d["id"], m["id"]))
+    seen_w = set()
+    for wname, pname, sid, mid in wrappers:
+        if wname in seen_w:
+            continue  # a payload shared by two methods has ONE wrapper carrying the first method's ids
+        seen_w.add(wname)
+        for v in b.values(run, pname, 2)[:3]:
+            canon = bytes([sid, mid]) + ref.encode(sch, pname, v)
+            j = {"service_id": sid, "method_id": mid, "payload": PP.to_json(sch, ("struct", pname), v)}
+            lines.append("SE %s %s" % (wname, json.dumps(j)))
+            meta.append(("WE", wname, v, canon, (pname, sid, mid)))
+            lines.append("SD %s %s" % (wname, canon.hex()))
+            meta.append(("WD", wname, v, canon, (pname, sid, mid)))
     outputs, crashes = cpp.run(b.binary, lines, b.dir)
     if PP.report_crashes(run, crashes, lines, b.case, "static codec"):
         return
@@ -65,6 +87,27 @@ def check_batch(run, b, nrand):
             run.violation("no answer from the C++ harness for %s %s" % (op, name), case)
             return
         o = out[0]
+        if op in ("WE", "WD"):
+            pname, sid, mid = vi
+            if not o.startswith("OK "):
+                run.violation("rpc wrapper %s: the static codec answered %s" % (name, o[:200]), case)
+                return
+            if op == "WE":
+                if bytes.fromhex(o[3:]) != canon:
+                    run.violation("rpc wrapper %s encodes to %s; service id, method id (one byte each) and the canonical payload are %s" % (name, o[3:83], canon.hex()[:80]), case)
+                    return
+                run.count("rpc_wrappers_encoded")
+            else:
+                try:
+                    jj = json.loads(o[3:])
+                    ok = jj.get("service_id") == sid and jj.get("method_id") == mid and ref.same(PP.from_json(sch, ("struct", pname), jj.get("payload")), v)
+                except (ValueError, AttributeError):
+                    ok = False
+                if not ok:
+                    run.violation("rpc wrapper %s decodes its canonical bytes to %s" % (name, o[3:200]), case)
+                    return
+                run.count("rpc_wrappers_decoded")
+            continue
         if op == "SE":
             if not o.startswith("OK "):
                 run.violation("StaticSchema::EncodeJson(%s) answered %s" % (name, o[:200]), case)
